@@ -30,6 +30,11 @@ import (
 // If it is impossible to redefine the function according to the given
 // constraints, an error will be returned.
 func (f *Func) Redefine(opts ...Arg) (*Func, error) {
+	// The redefined function uses the options on every call. The list
+	// belongs to the caller, who may reuse it once we return, so we keep
+	// a copy.
+	opts = append([]Arg(nil), opts...)
+
 	// First we check the outputs since we currently only error if the outputs
 	// do not match the filter. In the future, we'll do conversions here too.
 	if err := f.redefineOutputs(opts...); err != nil {
